@@ -4,7 +4,6 @@
 
 pub mod gen;
 pub mod log;
-#[cfg(feature = "deadlock")]
 pub mod net;
 pub mod rng;
 pub mod world;
